@@ -532,7 +532,7 @@ func c16Corpus() []*c16Program {
 func cmdC16(seed int64, tier, outDir string) {
 	c01Setup()
 	c16DumpSetup()
-	n, maxNodes := 450, 36
+	n, maxNodes := 360, 36
 	if tier == "thorough" {
 		n, maxNodes = 30000, 100
 	}
